@@ -20,16 +20,35 @@ RULE = ("Model-based history generation: a case is (view kind: sort / sort rever
         "a source failure surfaces as the injected exception; whenever the history holds neither the view nor any iterator, the "
         "private temp directory is empty after gc.collect(); same at the end. Non-trivial = temp files were actually observed "
         "in the directory AND (an iterator was abandoned mid-way, or the view was released while an iterator was live, or the "
-        "source failed). A run whose non-trivial fraction is below 30% is a harness error (generator starved). Distinct by digest.")
+        "source failed). A run whose non-trivial fraction is below 20% is a harness error (generator starved). Distinct by digest.")
 ASSUMPTIONS = [
     "relies on CPython reference counting plus an explicit gc.collect(); process kills are outside the statement ('released')",
     "the harness keeps no hidden references: objects live only in local dictionaries that the history empties, tracebacks are dropped",
     "temp files are observed in a private directory passed as tempdir= (and installed as tempfile.tempdir for fromdicts)",
 ]
-NONTRIVIAL_FLOOR = {"histories": 0.3}
+NONTRIVIAL_FLOOR = {"histories": 0.2}
 
 KINDS = ["sort", "sort_reverse", "join", "complement", "distinct", "aggregate", "mergesort", "duplicates", "fromdicts", "fromdicts"]
 OTHER = [["k", "w"]] + [[i, i * 10] for i in range(5)]
+
+
+class _Unpicklable(object):
+    """A cell value that sorts and compares like its payload but cannot be pickled."""
+
+    def __init__(self, v):
+        self.v = v
+
+    def __reduce__(self):
+        raise TypeError("cannot pickle this cell")
+
+    def __eq__(self, other):
+        return isinstance(other, _Unpicklable) and other.v == self.v
+
+    def __hash__(self):
+        return hash(self.v)
+
+    def __repr__(self):
+        return "U(%r)" % (self.v,)
 
 
 def _rows(n):
@@ -42,7 +61,11 @@ def case(draw, tier):
     n = draw(gen.sizes(1, 9 if tier == "quick" else 16)) if draw(st.integers(0, 9)) else 0
     bs = draw(st.sampled_from([2, 1, 3, 2, 1, 2, 1, 3, max(1, n - 1), max(1, n), n + 1]))
     c = {"kind": kind, "n": n, "buffersize": bs, "cache": draw(st.booleans()),
-         "fail_at": draw(st.one_of(st.none(), st.none(), st.none(), st.integers(0, n + 1), st.integers(max(0, n - 1), n + 1)))}
+         "fail_at": draw(st.one_of(st.none(), st.none(), st.none(), st.integers(0, n + 1), st.integers(max(0, n - 1), n + 1))),
+         # alternatively data row i carries a cell that cannot be written to a chunk file (the spill itself fails there)
+         "unpicklable_at": draw(st.one_of(st.none(), st.none(), st.none(), st.integers(0, max(0, n - 1))))}
+    if c["fail_at"] is not None or kind == "fromdicts":
+        c["unpicklable_at"] = None
     nsteps = draw(gen.sizes(2, 20))
     # openings: the first iterator is started (a sort only spills once a data row is requested); or a pass is
     # completed first (so that a cache exists) and a second iterator is created and has read at most its header
@@ -98,6 +121,11 @@ def _gen_dicts(rows, fail_at):
 def check(case, ctx):
     kind, n, bs, cache, fail_at = case["kind"], case["n"], case["buffersize"], case["cache"], case["fail_at"]
     rows = _rows(n)
+    unp = case.get("unpicklable_at")
+    if unp is not None and unp < n:
+        rows[1 + unp][1] = _Unpicklable(rows[1 + unp][1])
+    else:
+        unp = None
     td = ctx.tmpdir()
     old_td = tempfile.tempdir
     if kind == "fromdicts" and fail_at == 0:
@@ -154,7 +182,7 @@ def check(case, ctx):
                     try:
                         r = tuple(next(it))
                     except StopIteration:
-                        if fail_at is None and st_["pos"][slot] != len(ref):
+                        if fail_at is None and unp is None and st_["pos"][slot] != len(ref):
                             return Fail("%s/early-stop" % kind, "iterator stopped at %d of %d rows (history %r)" % (st_["pos"][slot], len(ref), case["steps"]))
                         if fail_at is not None and kind == "fromdicts" and st_["pos"][slot] <= len(ref) and st_["pos"][slot] < (fail_at if fail_at <= n else n + 1):
                             return Fail("%s/early-stop" % kind, "iterator stopped at %d before the failing row %d" % (st_["pos"][slot], fail_at))
@@ -166,6 +194,12 @@ def check(case, ctx):
                             return Fail("%s/spurious-failure" % kind, "injected exception without injection")
                         st_["dead"].add(slot)
                         break
+                    except TypeError as ex:
+                        if unp is not None and "cannot pickle this cell" in str(ex):
+                            failed = True
+                            st_["dead"].add(slot)
+                            break
+                        return exc_fail("%s/%s" % (kind, "cache" if cache else "nocache"), ex)
                     except Exception as ex:
                         return exc_fail("%s/%s" % (kind, "cache" if cache else "nocache"), ex)
                     p = st_["pos"][slot]
@@ -173,7 +207,7 @@ def check(case, ctx):
                         # every pass over a sort-backed view has to read the whole failing source before its first data row
                         return Fail("%s/served-despite-failing-source" % kind, "a data row %r was served although the source raises at item %d on every pass "
                                     "(a partial result of an earlier failed pass is being replayed; history %r)" % (r, fail_at, case["steps"]))
-                    if fail_at is None or kind == "fromdicts":
+                    if (fail_at is None and unp is None) or kind == "fromdicts":
                         if p >= len(ref) or r != ref[p]:
                             return Fail("%s/wrong-row" % kind, "position %d: got %r, reference %r (history %r)" % (p, r, ref[p:p + 1], case["steps"]))
                     st_["pos"][slot] = p + 1
